@@ -5,6 +5,7 @@ go 1.24.2
 require (
 	github.com/datastax/cql-proxy v0.0.0
 	github.com/datastax/go-cassandra-native-protocol v0.0.0-20220706104457-5e8aad05cf90
+	go.uber.org/zap v1.17.0
 	golang.org/x/tools v0.29.0
 )
 
@@ -20,7 +21,6 @@ require (
 	github.com/pkg/errors v0.9.1 // indirect
 	go.uber.org/atomic v1.8.0 // indirect
 	go.uber.org/multierr v1.7.0 // indirect
-	go.uber.org/zap v1.17.0 // indirect
 	golang.org/x/mod v0.22.0 // indirect
 	golang.org/x/sync v0.10.0 // indirect
 	gopkg.in/yaml.v2 v2.4.0 // indirect
